@@ -15,6 +15,7 @@
 #include "c11.c"
 #include "c07.c"
 #include "c06.c"
+#include "c01.c"
 
 int main(int argc,char **argv){
   if(argc<2){ fprintf(stderr,"usage: vharn <stream>\n"); return 2; }
@@ -30,6 +31,7 @@ int main(int argc,char **argv){
   if(!strcmp(argv[1],"c11")) return c11_main(argc-1,argv+1);
   if(!strcmp(argv[1],"c07")) return c07_main(argc-1,argv+1);
   if(!strcmp(argv[1],"c06")) return c06_main(argc-1,argv+1);
+  if(!strcmp(argv[1],"c01")) return c01_main(argc-1,argv+1);
   fprintf(stderr,"vharn: unknown stream %s\n",argv[1]);
   return 2;
 }
